@@ -175,6 +175,8 @@ class Exec:
             raise Unsupported("truth of non-numeric term")
         if isinstance(v, Seq):
             return v.length() > 0
+        if hasattr(v, "items_list") and hasattr(v, "length"):      # concrete deque model
+            return v.length() > 0
         if isinstance(v, Arr):
             raise Unsupported("truth value of an array")
         if isinstance(v, (Rec, Closure, BoundMethod, Opaque, EnumV, ClassRef)):
